@@ -10,7 +10,7 @@ import os
 
 from vlib.runner import CheckSpec, Cube
 from vlib.stubs import modelfs
-from vlib.sym import assume
+from vlib.sym import assume, pinned
 
 PRODUCERS = ["status", "create_zip", "make_zip", "download", "render"]
 ERRNOS = [errno.ENOSPC, errno.EIO]
@@ -42,6 +42,11 @@ class OsShim:
 
     def close(self, fd):
         return None
+
+    def fsync(self, fd):
+        return self.fs.fsync(fd)
+
+    fdatasync = fsync
 
     def walk(self, top):
         yield top, [], ["f%d" % i for i in range(self.nfiles)]
@@ -243,6 +248,7 @@ def judge(which, fs, prev_exists, new, mode):
 def h_crash(k: int, partial: int, m: int, prev_exists: bool, which: str):
     """The producer is killed before its k-th file-system step."""
     assume(1 <= m <= 3)
+    m = pinned(m)  # the chunk count ends up in json.dumps / b"%d" formatting (C code)
     assume(1 <= k <= 40)
     assume(0 <= partial <= 40)
     fs = modelfs.ModelFS(crash_at=k, partial=partial)
@@ -262,6 +268,7 @@ def h_crash(k: int, partial: int, m: int, prev_exists: bool, which: str):
 def h_fault(f: int, e: int, m: int, prev_exists: bool, which: str):
     """The f-th file-system step fails with ENOSPC / EIO; the producer's own error handling runs."""
     assume(1 <= m <= 3)
+    m = pinned(m)
     assume(1 <= f <= 40)
     assume(0 <= e < len(ERRNOS))
     fs = modelfs.ModelFS(fault_at=f, fault_errno=ERRNOS[e])
@@ -279,6 +286,7 @@ def h_fault(f: int, e: int, m: int, prev_exists: bool, which: str):
 def h_fault_then_crash(f: int, k: int, partial: int, m: int, which: str):
     """An I/O error at step f, then the process is killed at a later step k (during the producer's clean-up)."""
     assume(1 <= m <= 2)
+    m = pinned(m)
     assume(1 <= f < k <= 40)
     assume(0 <= partial <= 40)
     fs = modelfs.ModelFS(crash_at=k, partial=partial, fault_at=f)
@@ -297,6 +305,7 @@ def h_fault_then_crash(f: int, k: int, partial: int, m: int, which: str):
 def twin_complete(m: int, which: str):
     """Reachability: without crash or fault the producer does publish the complete new content."""
     assume(1 <= m <= 3)
+    m = pinned(m)
     fs = modelfs.ModelFS()
     new = run_producer(which, fs, m)
     if fs.files.get(FINAL[which]) == new and fs.step_no >= 3:
@@ -366,7 +375,10 @@ def replay(cand: dict) -> dict:
         last = _replay_one(c2)
         if last.get("reproduced") or last.get("error"):
             return last
-        if "producer finished" in last.get("what", "") and idx > 3:
+        import re as _re
+
+        mo = _re.search(r"producer finished after (\d+) calls", last.get("what", ""))
+        if mo and idx > int(mo.group(1)) + 1 and idx >= max(tried[:1] + [0]) and len(tried) > 1:
             break
     return last
 
@@ -456,6 +468,8 @@ def gate(name):
         sys.stdout.write("killed before call %d (%s)\n" % (count[0], name)); sys.stdout.flush()
         os._exit(9)
     if count[0] == cfg["f"]:
+        if name in ("flush", "close") and os.path.exists("/dev/full"):
+            return "full"   # the caller points the descriptor at /dev/full: the kernel itself fails the write
         raise OSError(cfg["errno"], "injected fault")
 def wrap(mod, name):
     orig = getattr(mod, name)
@@ -467,8 +481,14 @@ real_open = builtins.open
 class GatedFile:
     def __init__(self, f): self.f = f
     def write(self, d): return self.f.write(d)
-    def flush(self): gate("flush"); return self.f.flush()
-    def close(self): gate("close"); return self.f.close()
+    def _full(self):
+        fd = os.open("/dev/full", os.O_WRONLY); os.dup2(fd, self.f.fileno()); os.close(fd)
+    def flush(self):
+        if gate("flush") == "full": self._full()
+        return self.f.flush()
+    def close(self):
+        if gate("close") == "full": self._full()
+        return self.f.close()
     def __enter__(self): return self
     def __exit__(self, *a): self.close(); return False
     def __getattr__(self, n): return getattr(self.f, n)
